@@ -2810,6 +2810,10 @@ func (p *Parser) evaluateInput(ctx context) (Expression, error) {
 
 		if len(expressions) > 0 {
 			expr = expressions[0]
+
+			if !expr.ValueType().IsString() {
+				return nil, p.expectedError("prompt string as first parameter", keywordToken)
+			}
 		}
 		return Input{
 			prompt: expr,
